@@ -13,3 +13,5 @@ import FP.Props.C12
 #print axioms FP.Props.C12.resolve_fhir_first
 #print axioms FP.Props.C12.resolve_system
 #print axioms FP.Props.C12.resolve_case_sensitive
+#print axioms FP.Props.C12.long_specifier_rejected
+#print axioms FP.Props.C12.short_specifier_resolved
